@@ -301,3 +301,117 @@ def run(run, P):
         ctx = solve(f, inits, on_event, None, keys, R, key_fn=lambda e: (e.ts['inc'], e.ts['use_at'], e.ts['wm'], e.ts.get('t_inc'), e.ts.get('t_k'), tuple((e.intf(a), e.nullf(a)) for a in corr)), on_branch=on_branch)
         run.stats['ssn_solver_steps'] += ctx.steps
     run.require(nuse >= 1 or run.fixture_mode, 'R-SSN-ORDER: no function uses the sender sequence number as a value')
+
+
+# ---------------------------------------------------------------------------------------------------------------
+ENCRYPT = 'coap_oscore_new_pdu_encrypted_lkd'
+ADD_OPT = ('coap_add_option_internal', 'coap_add_option', 'coap_insert_option')
+
+
+def run_echo_piv(run, P):
+    """R-SSN-ORDER (Echo challenge): a response that carries a fresh Echo value is a NEW plaintext every time the same request arrives
+    (RFC 8613 Appendix B.1.2: the request may be a replay, that is what the challenge is for).  Protected without its own Partial IV it
+    would be encrypted under the request's nonce: two different plaintexts under one (key, nonce).  So in every function that adds an
+    Echo option to a PDU and then protects that PDU, the send_partial_iv argument of the protecting call is OSCORE_SEND_PARTIAL_IV on every
+    path on which the Echo option was added (constants, `c ? a : b` with c decided by the path facts, locals with known value)."""
+    run.rule('R-SSN-ORDER')
+    ECHO = P.const_named('COAP_OPTION_ECHO') if hasattr(P, 'const_named') else 252
+    try:
+        SEND = P.const_named('OSCORE_SEND_PARTIAL_IV')
+    except Exception:
+        SEND = 1
+    n = 0
+    for f in sorted(P.lib_funcs(), key=lambda f: f['name']):
+        adds, encs = [], []
+        for b, ev in P.events(f):
+            t = ev['e']
+            if t.get('k') == 'call' and t.get('fn') in ADD_OPT and len(t.get('a') or []) >= 2 and const_int(t['a'][1]) == ECHO and ap(t['a'][0]):
+                adds.append((ev, ap(t['a'][0])))
+            c = t if t.get('k') == 'call' else (strip(t.get('r')) if t.get('k') == 'asg' else None)
+            if isinstance(c, dict) and c.get('k') == 'call' and c.get('fn') == ENCRYPT and len(c.get('a') or []) >= 4 and ap(c['a'][1]):
+                encs.append((ev, c, ap(c['a'][1])))
+        # a challenge is issued by whoever BUILDS the message: the PDU is created in this function (a client echoing the value back into its
+        # next request works on a PDU it was handed, and a request always carries its own Partial IV anyway)
+        built = set()
+        for b, ev in P.events(f):
+            t = ev['e']
+            if t.get('k') == 'asg' and t.get('op') == '=' and isinstance(strip(t['r']), dict) and strip(t['r']).get('k') == 'call' and strip(t['r']).get('fn') in ('coap_pdu_init', 'coap_new_pdu_lkd') and ap(t['l']):
+                built.add(ap(t['l']))
+            for d in t.get('d') or ():
+                r = strip(d.get('init'))
+                if isinstance(r, dict) and r.get('k') == 'call' and r.get('fn') in ('coap_pdu_init', 'coap_new_pdu_lkd'):
+                    built.add('v%d' % d['id'])
+        adds = [a for a in adds if a[1] in built]
+        if not adds or not encs:
+            continue
+        name = f['name']
+        n += 1
+        run.instance('R-SSN-ORDER', '%s: builds a message with an Echo option and protects it' % name)
+        condvars = set()
+        for ev, c, p in encs:
+            for x in walk(c['a'][3]):
+                if isinstance(x, dict) and ap(x):
+                    condvars.add(ap(x))
+
+        def is_rule_event(ev):
+            return any(ev is a[0] for a in adds) or any(ev is e[0] for e in encs)
+        keys, R = relevance(f, is_rule_event, condvars)
+        R = set(R) | condvars
+        for b in f['blocks']:
+            c = (b.get('term') or {}).get('cond')
+            if c is not None and any(isinstance(x, dict) and ap(x) in condvars for x in walk(c)):
+                keys = set(keys) | {b['id']}
+
+        def value(x, env):
+            x = strip(x)
+            K = const_int(x)
+            if K is not None:
+                return K
+            if isinstance(x, dict) and x.get('k') == 'cond':
+                c = strip(x['c'])
+                neg = False
+                while isinstance(c, dict) and c.get('k') == 'un' and c.get('op') == '!':
+                    c = strip(c['e'])
+                    neg = not neg
+                tv = None
+                if ap(c):
+                    nf = env.nullf(ap(c))
+                    if nf in ('N', 'Z'):
+                        tv = (nf == 'N')
+                    else:
+                        lo, hi, ex = env.intf(ap(c))
+                        if lo == hi == 0:
+                            tv = False
+                        elif lo > 0 or hi < 0 or 0 in ex:
+                            tv = True
+                if tv is None:
+                    a, b2 = value(x['x'], env), value(x['y'], env)
+                    return a if a == b2 else None
+                if neg:
+                    tv = not tv
+                return value(x['x'] if tv else x['y'], env)
+            if ap(x):
+                lo, hi, ex = env.intf(ap(x))
+                if lo == hi:
+                    return lo
+            return None
+
+        def on_event(ev, env, ctx):
+            for aev, p in adds:
+                if ev is aev:
+                    e = apply_generic(ev, env, R).copy()
+                    e.ts['echo'] = tuple(sorted(set(env.ts.get('echo', ())) | {p}))
+                    return [e]
+            for eev, c, p in encs:
+                if ev is eev and p in env.ts.get('echo', ()):
+                    v = value(c['a'][3], env)
+                    ok = v == SEND
+                    run.oblige('R-SSN-ORDER', ok, '%s:echo-response-own-piv' % name)
+                    if not ok:
+                        run.violation('R-SSN-ORDER', name, ev['loc'], 'echo-response-without-own-piv',
+                                      'a PDU to which an Echo option was added on this path is protected with send_partial_iv = %s (%s), not OSCORE_SEND_PARTIAL_IV: the challenge is '
+                                      'encrypted under the nonce of the request, and a second delivery of that request encrypts a different Echo value under the same key and nonce' %
+                                      ('?' if v is None else v, short(c['a'][3])[:40]), ctx.path())
+            return None
+        solve(f, Env(), on_event, None, keys, R, key_fn=lambda e: (e.ts.get('echo', ()), tuple(e.nullf(v) for v in sorted(condvars))))
+    run.require(n >= 1 or run.fixture_mode or run.cfg != 'base', 'R-SSN-ORDER(Echo): no function that adds an Echo option and protects the PDU found')
